@@ -14,6 +14,9 @@ ASSUMPTIONS = [
     "newline, \\d / \\s are the Unicode classes; characters are limited to z3's range (<= U+2FFFF)",
     "spec whitespace = the characters with str.isspace() (Unicode White_Space plus the ASCII separators FS GS RS US)",
 ]
+LEVEL = "other"     # the validators are proved; the per-class parse() functions are not under contract yet
+NOT_COVERED = ["the 25 per-class parse() functions", "Serializer.unserialize envelope checks and exception wrapping",
+               "check_or_raise_extra / _validate_kwargs (iteration over dynamically typed dict keys)"]
 MSG = "autobahn.wamp.message"
 UNTRUSTED = "int|bool|str|none|real|bytes"
 RS = R.RS
